@@ -55,6 +55,11 @@ CHECKS = {
          "(a) 1e5 (quick) random points of the floating-point work function, including powers of two and extreme timestamps, checked for monotone non-increase in elapsed time and for reaching zero after two heartbeats; (b) blocks built outside the producer's gate one millisecond before, exactly at and after the moment the independently computed routing work meets the requirement, with valid, path-less, mis-addressed, forged and gapped routing paths; (c) every fee transaction on the longest chain of generated forked histories pays only the ticket solver and keys on routing paths of the blocks being paid, never more than those blocks collected.",
          "The requirement curve itself (needed as a function of burn fee and time) is taken from the implementation; only its laws are checked. Senders of path-less fee-paying transactions count as eligible (documented in get_winning_routing_node).",
          "DESIGN.md §3 C08"),
+ "C13": ("exploration",
+         "model-based checking of every window-edge block of generated long histories against an independent reference ledger, plus adversarial spend probes of expired outputs",
+         "For every block that enters the longest chain beyond height gp+1 (generated histories with several window wraps, dust, fees, treasury payout multiplier and cap, forks across the edge) the set U of still-unspent outputs of the expiring block is taken from the independent replay; rebroadcast transactions must map one-to-one into U, keep the owner, carry value+payout-fee, the payouts must equal the treasury debit, and rebroadcast fees plus the value of non-rebroadcast members of U must equal total_fees_atr; real signed spends of expired outputs are then offered to the pool and must be refused.",
+         "NFT-style bound triples are not generated. 'No longer spendable' is judged operationally (a signed spend is refused), not by absence from the utxoset map.",
+         "DESIGN.md §3 C13"),
 }
 NOT_YET = {}
 
